@@ -312,6 +312,13 @@ PyModule_AddObject(m, (char *) "{PY_module_name}", submodule);
 
         ast = node.ast
         output = self.enum_impl
+        if ast.scope is None:
+            cxx_value = "{namespace_scope}{enum_member_name}"
+        else:
+            # The members of a scoped enumeration are qualified by its name
+            # and do not convert to long implicitly.
+            cxx_value = ("static_cast<long>"
+                         "({namespace_scope}{enum_name}::{enum_member_name})")
         if node.parent.nodename != "class":
             # library/namespace enumerations
             # m is module pointer from module_middle
@@ -322,8 +329,8 @@ PyModule_AddObject(m, (char *) "{PY_module_name}", submodule);
                 fmt_id = fmtmembers[member.name]
                 append_format(
                     output,
-                    'PyModule_AddIntConstant(m, "{enum_member_name}",'
-                    " {namespace_scope}{enum_member_name});",
+                    'PyModule_AddIntConstant(m, "{enum_member_name}", '
+                    + cxx_value + ");",
                     fmt_id,
                 )
         else:
@@ -335,7 +342,7 @@ PyModule_AddObject(m, (char *) "{PY_module_name}", submodule);
                 append_format(
                     output,
                     "tmp_value = PyLong_FromLong("
-                    "{namespace_scope}{enum_member_name});\n"
+                    + cxx_value + ");\n"
                     "PyDict_SetItemString("
                     "(PyObject*) {PY_PyTypeObject}.tp_dict,"
                     ' "{enum_member_name}", tmp_value);\n'
